@@ -44,6 +44,9 @@ def begin_case():
     """Reset interpreter-global harness state so a case is a pure function of (case, tape)."""
     simmanager.install()
     simmanager.reset()
+    from pipefunc._utils import _cached_load
+
+    _cached_load.cache_clear()  # process-wide lru_cache keyed by (path, mtime, size)
 
 
 def new_sim(exec_tape, root=None, *, preempt=0.3, step_cap=20000, clock=False, fs_kwargs=None, log_events=False):
